@@ -40,6 +40,8 @@ class PolyOperands:
         if kind is None:
             # mostly the same coefficient kind, sometimes another one (mixed dtypes)
             kind = base.get("kind") if draw(st.integers(0, 2)) else draw(st.sampled_from(list(self.kinds)))
+            if base.get("kind") == "i" and "f" in self.kinds and draw(st.integers(0, 3)) == 0:
+                kind = "f"  # narrower kind first, wider later: joins must take numpy's promoted dtype
         return self.array(draw, shape=shape, names=names, kind=kind)
 
 
